@@ -114,6 +114,15 @@ func c01Paths(maxSeg int) []string {
 			out = append(out, "/"+dd+"/root-other/secret.txt", dd+"/rootx/secret.txt", "/sub/"+dd+"/"+dd+"/root-other/sub", "/"+dd+"/"+dd+"/out/secret.txt", "/***DVD***/"+dd+"/"+dd+"/root-other")
 		}
 	}
+	// characters that a Unicode compatibility form, a width folding or a lenient UTF-8 decoder turns into '.', '/' or
+	// '\\' after the clamp has run: as sent they are ordinary (non-existent) names under the root
+	for _, dd := range []string{"\u2025", "\uff0e\uff0e", "\ufe52\ufe52", "\u2024\u2024", ".\uff0e", "\uff0e.", "\xc0\xae\xc0\xae", "\xe0\x80\xae\xe0\x80\xae", "\u2026"} {
+		for _, sep := range []string{"/", "\uff0f", "\u2215", "\u2044", "\uff3c", "\xc0\xaf"} {
+			out = append(out, "/"+dd+sep+"root-other"+sep+"secret.txt", "/"+dd+sep+"rootx"+sep+"secret.txt", dd+sep+"rootx"+sep+"secret.txt",
+				"/sub/"+dd+sep+dd+sep+"root-other"+sep+"sub", "/"+dd+sep+dd+sep+"out"+sep+"secret.txt", "/***DVD***/"+dd+sep+"rootx", "/***PS3***/"+dd+sep+"root-other",
+				"/"+dd+sep+"PS3ISO"+sep+"g.iso", "/w/"+dd+sep+dd+sep+"w"+sep+"x")
+		}
+	}
 	return out
 }
 
